@@ -1,0 +1,45 @@
+//! Verification hooks. Compiled only with `--cfg feoxdb_verif`; the normal build and
+//! the test suite never see this module. Everything here is add-only instrumentation
+//! or a read-only re-export of crate-private pure functions.
+
+/// H3: pure functions of the on-disk format, re-exported for differential checking.
+pub mod pure {
+    use crate::error::Result;
+    use crate::storage::format::RecordFormat;
+
+    pub fn crc32c(seed: u32, data: &[u8]) -> u32 {
+        crate::storage::seq_token::crc32c(seed, data)
+    }
+    pub fn seq_token(sector: u64, header: &[u8]) -> u16 {
+        crate::storage::seq_token::seq_token(sector, header)
+    }
+    pub fn record_seq_token(sector: u64, data: &[u8]) -> u16 {
+        crate::storage::seq_token::record_seq_token(sector, data)
+    }
+    pub fn header_range(format: &dyn RecordFormat, data: &[u8]) -> Option<std::ops::Range<usize>> {
+        crate::storage::seq_token::header_range(format, data)
+    }
+    pub fn stamp_seq_token(data: &mut [u8], sector: u64, format: &dyn RecordFormat) {
+        crate::storage::seq_token::stamp_seq_token(data, sector, format)
+    }
+    pub fn journal_encode_active(generation: u64, extents: &[(u64, usize)]) -> Result<Vec<u8>> {
+        crate::storage::allocation_journal::encode_active(generation, extents)
+    }
+    pub fn journal_encode_clear(generation: u64) -> Result<Vec<u8>> {
+        crate::storage::allocation_journal::encode_clear(generation)
+    }
+    /// (generation, slot, extents)
+    pub fn journal_decode(data: &[u8], total_sectors: u64) -> Result<(u64, usize, Vec<(u64, usize)>)> {
+        crate::storage::allocation_journal::decode(data, total_sectors)
+            .map(|state| (state.generation, state.slot, state.extents))
+    }
+    pub fn fill_retirement_markers(retired: &mut [u8], sector: u64, remaining: usize) {
+        crate::storage::format::fill_retirement_markers(retired, sector, remaining)
+    }
+    pub fn retirement_marker_token(sector: u64, marker: &[u8]) -> u16 {
+        crate::storage::format::retirement_marker_token(sector, marker)
+    }
+    pub fn metadata_generation(metadata: &crate::storage::metadata::Metadata) -> u64 {
+        metadata.generation()
+    }
+}
